@@ -1,0 +1,45 @@
+//! Verification seams, compiled only with `--cfg hyeong_verif`.
+//!
+//! A simulator may install per-thread callbacks that take over the process's
+//! standard input, observe requested process exits and count interpreter steps.
+//! With no callback installed every function here does nothing, so a guarded
+//! build behaves exactly like the shipped one.
+
+use std::cell::Cell;
+
+/// Reads one line (terminator included) into the buffer, like `Stdin::read_line`
+pub type StdinFn = fn(&mut String) -> std::io::Result<usize>;
+/// Called right before `process::exit(code)` at the named site
+pub type ExitFn = fn(&'static str, i32);
+/// Called once per interpreter step at the named site
+pub type TickFn = fn(&'static str);
+
+thread_local! {
+    static STDIN: Cell<Option<StdinFn>> = Cell::new(None);
+    static EXIT: Cell<Option<ExitFn>> = Cell::new(None);
+    static TICK: Cell<Option<TickFn>> = Cell::new(None);
+}
+
+/// Install (or remove, with `None`) the callbacks of the current thread
+pub fn install(stdin: Option<StdinFn>, exit: Option<ExitFn>, tick: Option<TickFn>) {
+    STDIN.with(|c| c.set(stdin));
+    EXIT.with(|c| c.set(exit));
+    TICK.with(|c| c.set(tick));
+}
+
+/// `None` when no simulator owns standard input
+pub fn stdin_read_line(buf: &mut String) -> Option<std::io::Result<usize>> {
+    STDIN.with(|c| c.get()).map(|f| f(buf))
+}
+
+pub fn exit(site: &'static str, code: i32) {
+    if let Some(f) = EXIT.with(|c| c.get()) {
+        f(site, code)
+    }
+}
+
+pub fn tick(site: &'static str) {
+    if let Some(f) = TICK.with(|c| c.get()) {
+        f(site)
+    }
+}
